@@ -382,6 +382,19 @@ def check_c13(rep):
     tlc_must_pass(r, "MC_Params")
     rep.cov["states"] = r["distinct"]
     rep.cov["transitions"] = r["generated"]
+    # a second universe at degree 1024, where the standard security level can be met: one 14..16-bit prime is within its 27-bit limit,
+    # two are not (products stay below 2^31, so TLC decides the security clause of the preconditions exactly)
+    cfg_sec = os.path.join(wd, "MC_Params_sec.cfg")
+    open(cfg_sec, "w").write("INIT PInit\nNEXT PNext\nCONSTANTS\n  USchemes = {\"bfv\", \"bgv\", \"ckks\"}\n  UDegrees = {1024}\n  UModuli = {12289, 18433, 40961}\n  UPlain = {0, 17, 257}\n"
+                             "  USecs = {\"none\", \"tc128\"}\n  UMaxLen = 2\nINVARIANTS PrefixClosed Emit\nCHECK_DEADLOCK FALSE\n")
+    nmain = len(universe)
+    r2 = run_tlc("MC_Params", cfg_sec, wd, workers=4, timeout=900, on_line=lambda t, o: universe.append(o) if t == "P" else None)
+    if r2["violated"]:
+        raise ToolError("Params.tla: %s violated" % r2["violated"])
+    tlc_must_pass(r2, "MC_Params (degree 1024)")
+    rep.cov["states"] += r2["distinct"]
+    rep.cov["transitions"] += r2["generated"]
+    rep.cov["security_level_universe_objects"] = len(universe) - nmain
     # realistic sizes (constants through exact big integers are checked in python-free form only for the small universe; here chain + ids)
     rng = random.Random(rep.seed)
     realistic = []
@@ -413,6 +426,11 @@ def check_c13(rep):
             for sch in ("bfv", "bgv", "ckks"):
                 t = 0 if sch == "ckks" else (65537 if g["n"] <= 4096 and g["n"] >= 1024 else 17 if g["n"] == 8 else 12289 if g["n"] == 64 else 5)
                 extra.append({"scheme": sch, "n": g["n"], "moduli": g["primes"], "t": t, "sec": "none", "expand": True, "special_enc": False})
+    # the standard security level on degrees where it can be met (1024: at most 27 bits, 4096: at most 109 bits): accepted and refused sets
+    for g in genev:
+        if g["kind"] == "coeff" and not g["panic"] and g["n"] >= 1024:
+            for sch in ("bfv", "ckks"):
+                extra.append({"scheme": sch, "n": g["n"], "moduli": g["primes"], "t": 0 if sch == "ckks" else 65537, "sec": "tc128", "expand": True, "special_enc": False})
     with open(pfile, "a") as f:
         for e in extra:
             f.write(json.dumps(e) + "\n")
